@@ -10,7 +10,7 @@ EXPLANATION = ("R16.1 name derivation (FileSpec::as_pathbuf / fixed_name_part) r
                "directory, over all presence/emptiness combinations; R16.3 the symlink is (re)created with the opened path before every log-file open and "
                "unconditionally inside the helper; R16.4 selector table of existing_log_files; R16.5 FileSpec::try_from maps parent/stem/extension, no "
                "timestamp, no discriminant; R16.6 every created log file is as_pathbuf of the configured spec (open-flag table); R16.7 the directory is "
-               "created and checked before the state is built. R16.6 the predicate of the listing agrees with the naming: whole-function tables of the directory listing and of filter_files (shared with R14.2).")
+               "created and checked before the state is built. R16.8 the predicate of the listing agrees with the naming: whole-function tables of the directory listing and of filter_files (shared with R14.2).")
 ASSUMPTIONS = ["Path/PathBuf semantics of std", "the start-time text is never empty"]
 NOT_DECIDED = ["Path semantics of the OS", "that existing_log_files equals the directory content for every history", "symlink resolution"]
 FLOORS = {'R16.2': 2, 'R16.3': 2, 'R16.4': 1, 'R16.5': 1}
@@ -31,7 +31,12 @@ def run(R, ctx):
     try_from(R, ctx)
     c06.open_flags(R, ctx, rule='R16.6')
     directory(R, ctx)
-    family_predicate_proxy(R, ctx, 'R16.6', 'existing_log_files lists exactly the family: the predicate of the listing agrees with the naming (shared with R14.2)')
+    # the path stored in the active state is the path of the file that is open: reopen_output and the symlink agree with the file the
+    # records go to after every rotation (shared with R01.4)
+    R.rule('R16.9', 'stored path = path of the opened file after every rotation (shared with R01.4)')
+    import c01 as _c01
+    _c01.swap_rules(Relabel(R, {'R01.4': 'R16.9'}), ctx)
+    family_predicate_proxy(R, ctx, 'R16.8', 'existing_log_files lists exactly the family: the predicate of the listing agrees with the naming (shared with R14.2)')
 
 def purity(R, ctx):
     f, cg = ctx.f, ctx.cg
